@@ -35,3 +35,4 @@ func At(pos string)                                {}
 func HashSum(kind string, data []byte) []byte      { return nil }
 func Reach(label string)                           {}
 func Bound(name string, quick int) int              { return quick }
+func Timed() bool                                  { return false }
